@@ -46,6 +46,7 @@ fn chain_case(rng: &mut Rng, rec: &mut Rec) {
     };
     for hop_i in 0..hops {
         let (kind, loc) = clean_location(rng, &original);
+        rec.cov(&format!("location-kind/{}", kind));
         let hop = Hop { status: { let mut st = rng.usize_in(300, 399) as u16; if st == 304 { st = 303; } st }, locations: vec![loc.clone().into_bytes()], with_body: rng.chance(1, 3) };
         // the caller attaches its own cookie for this hop (must not be confused with the inherited one)
         if hop_i > 0 && rng.chance(1, 2) {
@@ -175,6 +176,7 @@ impl Property for P {
         }
         v.push(("hop2/same-host/upgrade/same-host-policy".into(), 3));
         v.push(("hop1/same-host/same-scheme/never".into(), 20));
+        v.push(("location-kind/abs-host-in-prefix-relation".into(), 100));
         v.push(("original/despite-method-with-content-length".into(), 100));
         v
     }
